@@ -86,6 +86,13 @@ func main() {
 	}
 	goEnv = append(os.Environ(), "GOFLAGS=-mod=mod", "GOPROXY=off", "GOSUMDB=off", "GOTOOLCHAIN=local", "CGO_ENABLED=0")
 	registerProps()
+	if v := os.Getenv("VERIF_FLOOD_P"); v != "" {
+		// experiment knob (not set by the registered commands): share of C09 runs that carry a volume fault; also
+		// honoured by selftest, so that determinism can be examined on flooded runs only (VERIF_FLOOD_P=1)
+		if x, err := strconv.ParseFloat(v, 64); err == nil {
+			gen.FloodP = x
+		}
+	}
 	switch os.Args[1] {
 	case "check":
 		if len(os.Args) < 4 {
@@ -336,12 +343,6 @@ func check(p *propDef, tier string) int {
 	}
 	if v := os.Getenv("VERIF_RUNS"); v != "" {
 		nRuns, _ = strconv.Atoi(v)
-	}
-	if v := os.Getenv("VERIF_FLOOD_P"); v != "" {
-		// experiment knob (not set by the registered commands): share of C09 runs that carry a volume fault
-		if x, err := strconv.ParseFloat(v, 64); err == nil {
-			gen.FloodP = x
-		}
 	}
 	if p.gateOps {
 		gateII(p, seeds[0])
